@@ -428,7 +428,7 @@ theorem operand_not_tail_counterexample :
     sub (.un .neg (.lit (.int 1))) [(.unArg .neg, 0)] = some (.lit (.int 1)) ∧
     evalE 2 {} [] (.un .neg (.lit (.int 1))) {} ≠ evalE 1 {} [] (.lit (.int 1)) {} := by
   refine ⟨rfl, ?_⟩
-  simp [evalE, bind_eq, M.bind, alloc, load, litVal, unop, liftOp, pure, M.pure]
+  simp [evalE, bind_eq, M.bind, alloc, load, litVal, unopM, unop, liftOp, pure, M.pure]
 
 /-- **The scrutinee of a `match` is not in tail position** (the defect f00daac of the pinned tree treated it as one):
 the `match` evaluates its scrutinee first, in the same state, and yields ANOTHER value (`E::two` = 1 where the scrutinee
